@@ -6,6 +6,9 @@
 //! cfg (comma separated): g0|g1 grease, mfs=<n>, wt=<0|1>, ec=<0|1>, dg=<0|1>, wts=<n>,
 //!   seed=<n> executor order seed, uc=<n>/bc=<n> initial uni/bidi stream credit,
 //!   wc=<n> initial write credit of every stream h3 writes on (default unlimited),
+//!   rxhalt=1 once a receive call (rr rd rb rm rt rda) of a request task has answered an error, the later
+//!   receive calls of that task are not made and answer `skipped` (the documented receive pattern ends with
+//!   an error: C07, reading R-07); send calls go on  (default off),
 //!   ev=1 log what h3 does on the transport into the trace, in order: w<sid>:<hex> fin<sid> rst<sid>:<c>
 //!   stop<sid>:<c> close:<c>  (default off)
 //! peer ops: o<sid> open; s<sid>:<hex> deliver chunk; f<sid> FIN; r<sid>:<code> RESET;
@@ -74,6 +77,14 @@ impl Ctx {
     fn last_failed(&self, task: &str) -> bool {
         let p = format!("{}.", task);
         self.trace.borrow().iter().rev().find(|e| e.starts_with(&p)).map(|e| e.contains("=err:")).unwrap_or(false)
+    }
+    /// did the last completed call of `task` report an error anywhere in its answer (`rm=body:…:err:…` too)?
+    fn last_has_err(&self, task: &str) -> bool {
+        let p = format!("{}.", task);
+        self.trace.borrow().iter().rev().find(|e| e.starts_with(&p)).map(|e| e.contains("err:")).unwrap_or(false)
+    }
+    fn rxhalt(&self) -> bool {
+        self.net.borrow().rxhalt
     }
     fn begin(&self, task: &str, op: &str) {
         self.inflight.borrow_mut().insert(task.to_string(), op.to_string());
@@ -260,7 +271,12 @@ macro_rules! stream_cmd {
     }};
 }
 
+fn is_recv_cmd(op: &str) -> bool {
+    matches!(op, "rr" | "rd" | "rb" | "rm" | "rt" | "rda")
+}
+
 async fn server_stream_task(name: String, mut st: SrvStream, mb: Mailbox, ctx: Ctx) {
+    let mut rx_failed = false;
     loop {
         let cmd = NextCmd(mb.clone()).await;
         // `<cmd>!`: the task ends when this call answers with an error (documented call pattern)
@@ -269,6 +285,11 @@ async fn server_stream_task(name: String, mut st: SrvStream, mb: Mailbox, ctx: C
             None => (cmd, false),
         };
         let (op, arg) = cmd.split_once(':').unwrap_or((&cmd, ""));
+        if ctx.rxhalt() && is_recv_cmd(op) && rx_failed {
+            ctx.log(&name, op, "skipped".into());
+            continue;
+        }
+        let recv_cmd = is_recv_cmd(op);
         match op {
             "dr" => {
                 ctx.log(&name, "dr", "ok".into());
@@ -292,6 +313,9 @@ async fn server_stream_task(name: String, mut st: SrvStream, mb: Mailbox, ctx: C
                 ctx.log(&name, "sr", r);
             }
             _ => stream_cmd!(ctx, name, st, cmd),
+        }
+        if recv_cmd && ctx.last_has_err(&name) {
+            rx_failed = true;
         }
         if halt && ctx.last_failed(&name) {
             return;
@@ -1052,6 +1076,7 @@ async fn wt_session_task(sess: WtSession, mb: Mailbox, ctx: Ctx) {
 // ------------------------------------------------------------------ client side
 
 async fn client_stream_task(name: String, mut st: CliStream, mb: Mailbox, ctx: Ctx) {
+    let mut rx_failed = false;
     loop {
         let cmd = NextCmd(mb.clone()).await;
         let (cmd, halt) = match cmd.strip_suffix('!') {
@@ -1059,6 +1084,11 @@ async fn client_stream_task(name: String, mut st: CliStream, mb: Mailbox, ctx: C
             None => (cmd, false),
         };
         let (op, _arg) = cmd.split_once(':').unwrap_or((&cmd, ""));
+        if ctx.rxhalt() && is_recv_cmd(op) && rx_failed {
+            ctx.log(&name, op, "skipped".into());
+            continue;
+        }
+        let recv_cmd = is_recv_cmd(op);
         match op {
             "dr" => {
                 ctx.log(&name, "dr", "ok".into());
@@ -1081,6 +1111,9 @@ async fn client_stream_task(name: String, mut st: CliStream, mb: Mailbox, ctx: C
                 ctx.log(&name, "rr", r);
             }
             _ => stream_cmd!(ctx, name, st, cmd),
+        }
+        if recv_cmd && ctx.last_has_err(&name) {
+            rx_failed = true;
         }
         if halt && ctx.last_failed(&name) {
             return;
@@ -1225,10 +1258,11 @@ pub struct Cfg {
     pub ev: bool,
     pub hold: bool,
     pub ops: bool,
+    pub rxhalt: bool,
 }
 
 pub fn parse_cfg(s: &str) -> Option<Cfg> {
-    let mut c = Cfg { grease: false, mfs: None, wt: false, ec: false, dg: false, wts: None, seed: 0, uc: UNLIMITED, bc: UNLIMITED, wc: UNLIMITED, ev: false, hold: false, ops: false };
+    let mut c = Cfg { grease: false, mfs: None, wt: false, ec: false, dg: false, wts: None, seed: 0, uc: UNLIMITED, bc: UNLIMITED, wc: UNLIMITED, ev: false, hold: false, ops: false, rxhalt: false };
     for t in s.split(',') {
         if t == "-" || t.is_empty() {
             continue;
@@ -1251,6 +1285,7 @@ pub fn parse_cfg(s: &str) -> Option<Cfg> {
                 "ev" => c.ev = v == "1",
                 "hold" => c.hold = v == "1",
                 "ops" => c.ops = v == "1",
+                "rxhalt" => c.rxhalt = v == "1",
                 _ => return None,
             }
         } else {
@@ -1280,6 +1315,7 @@ fn spawn_endpoint(exec: &Exec, role: &str, cfg: &Cfg, prefix: &str, trace: Trace
         n.default_tx_credit = cfg.wc;
         n.hold = cfg.hold;
         n.log_ops = cfg.ops;
+        n.rxhalt = cfg.rxhalt;
     }
     let ctx = Ctx { prefix: prefix.to_string(), trace, spawner: exec.spawner.clone(), inflight: Default::default(), net };
     if cfg.ev {
